@@ -36,6 +36,15 @@ func checkC07(p *Prog, r *Report) {
 	c07Discovery(p, r)
 	r.Rule("R6", "Operations.Information announces read iff read, write iff write, and the partial flags iff readPartial resp. writePartial")
 	c07OperationsInfo(p, r)
+	r.Rule("R10", "the local entity and feature lists, whose slice headers are handed out to readers that iterate them outside the lock (the discovery reply), are never modified in place: removal builds a new slice")
+	escapedListsImmutable(p, ls, r, "R10", map[string]bool{"DeviceLocal": true, "EntityLocal": true, "Entity": true})
+	r.Rule("R11", "the local entity and feature lists are never used as the backing array of another list")
+	noStrayCompaction(p, ls, r, "R11", map[string]bool{"DeviceLocal": true, "EntityLocal": true, "Entity": true})
+	r.Rule("R12", "the removal of one remote entity keeps the peer's other subscriptions (retain truth table of the per-entity removal: device and entity both compared), so that a peer subscribed to node management keeps being notified of local entity changes (shared with C08-R3)")
+	applyRetain(p, r, "R12", "spine", "SubscriptionManager", "RemoveSubscriptionsForEntity", retainSpec{Field: F("SubscriptionManager.subscriptionEntries"),
+		Required: map[string]string{"client.device": "ClientFeature.Device().Ski()|ClientFeature.Address().Device", "client.entity": "ClientFeature.Address().Entity"}})
+	r.Rule("R13", "every hand-written element-wise comparison of two slices of one type compares their lengths for equality: an announced entity address never resolves to an entity whose address is a prefix of it (shared lint, C20-R6)")
+	sliceEqualityHelpers(p, r, "R13")
 	r.Assumes("the closure returned by the id generator factory is only stored in Entity.fIdGenerator")
 }
 
